@@ -19,31 +19,68 @@ Qed.
 Definition nonneg (l : list R) : Prop := Forall (fun x => 0 <= x)%R l.
 Definition all_zero (l : list R) : Prop := Forall (fun x => x = 0%R) l.
 
-Lemma fold_max_zero r : forall m, (0 <= m)%R -> nonneg r ->
-  (fold_left (fun m y => max2 RS y m) r m = 0%R <-> m = 0%R /\ all_zero r) /\
-  (0 <= fold_left (fun m y => max2 RS y m) r m)%R.
+Lemma fold_pymax_zero r : forall m, (0 <= m)%R -> nonneg r ->
+  (fold_left (fun m y => if Rltb m y then y else m) r m = 0%R <-> m = 0%R /\ all_zero r).
 Proof.
   induction r as [|y r IH]; intros m Hm Hr.
-  - cbn. split; [|exact Hm]. split; [intros ->; split; [reflexivity|constructor]|intros [-> _]; reflexivity].
-  - inversion Hr as [|? ? Hy Hr']; subst. cbn [fold_left]. rewrite max2_Rmax.
-    assert (0 <= Rmax y m)%R as Hmax by (unfold Rmax; destruct (Rle_dec y m); lra).
-    destruct (IH _ Hmax Hr') as [Hiff Hpos]. split; [|exact Hpos].
-    rewrite Hiff. unfold all_zero. split.
-    + intros [H0 Hz]. assert (y = 0 /\ m = 0)%R as [-> ->]
-        by (revert H0; unfold Rmax; destruct (Rle_dec y m); intros; split; lra).
+  - cbn. split; [intros ->; split; [reflexivity|constructor]|intros [-> _]; reflexivity].
+  - inversion Hr as [|? ? Hy Hr']; subst. cbn [fold_left].
+    assert (0 <= (if Rltb m y then y else m))%R as Hmax by (destruct (Rltb m y); assumption).
+    rewrite (IH _ Hmax Hr'). unfold all_zero. split.
+    + intros [H0 Hz]. assert (y = 0 /\ m = 0)%R as [-> ->].
+      { destruct (Rltb m y) eqn:E; [apply Rltb_true in E|apply Rltb_false in E]; split; lra. }
       split; [reflexivity|constructor; [reflexivity|exact Hz]].
-    + intros [-> Hz]. inversion Hz as [|? ? Hy0 Hz']; subst.
-      split; [|exact Hz']. unfold Rmax. destruct (Rle_dec 0 0); reflexivity.
+    + intros [-> Hz]. inversion Hz as [|? ? Hy0 Hz']; subst. split; [|exact Hz'].
+      destruct (Rltb 0 0); reflexivity.
 Qed.
 
-(* the largest of non-negative numbers is zero iff all of them are *)
-Lemma max_list_zero xs m : nonneg xs -> max_list RS xs = Some m -> (m = 0%R <-> all_zero xs).
+(* the largest value of a dictionary of non-negative numbers is zero iff all are *)
+Lemma max_values_zero (d : list (string * R)) m :
+  nonneg (map snd d) -> max_values RS d = Some m -> (m = 0%R <-> all_zero (map snd d)).
 Proof.
-  intros Hn Hm. destruct xs as [|x r]; [discriminate|]. cbn [max_list] in Hm. injection Hm as <-.
-  inversion Hn as [|? ? Hx Hr]; subst. destruct (fold_max_zero r x Hx Hr) as [Hiff _].
-  rewrite Hiff. unfold all_zero. split.
+  unfold max_values. cbn [sltb RS]. destruct (map snd d) as [|x r]; [discriminate|].
+  intros Hn Hm. injection Hm as <-. inversion Hn as [|? ? Hx Hr]; subst.
+  rewrite (fold_pymax_zero r x Hx Hr). unfold all_zero. split.
   - intros [-> Hz]. constructor; [reflexivity|exact Hz].
   - intros Hz. inversion Hz; subst. split; [reflexivity|assumption].
+Qed.
+
+(* IMP entries of a cell card: the importance kept by the parser (largest over
+   the particles of the last value given to each) is zero iff the importance of
+   every particle named is zero *)
+Lemma entries_zero_iff (P : prims R) (es : list (imp_entry (T:=R))) :
+  es <> [] -> Forall (fun e => fst e <> []) es -> Forall (fun e => 0 <= snd e)%R es ->
+  exists m, imp_of_entries RS es = Some m /\
+            (m = 0%R <-> forall p, In p (named es) -> last_value p es = Some 0%R).
+Proof.
+  intros Hne Hps Hnn.
+  set (M := assign_all es []).
+  assert (NoDup (map fst M)) as Hnd by (apply assign_all_nodup; constructor).
+  assert (forall p, dict_get String.eqb p M = last_value p es) as Hget.
+  { intros p. unfold M. rewrite get_assign_all. destruct (last_value p es); reflexivity. }
+  assert (forall p v, In (p, v) M -> last_value p es = Some v) as Hin.
+  { intros p v H. rewrite <- Hget. apply (dict_get_in String.eqb String.eqb_eq); assumption. }
+  assert (nonneg (map snd M)) as Hvals.
+  { apply Forall_forall. intros v Hv. apply in_map_iff in Hv. destruct Hv as ([p v'] & <- & Hpv).
+    cbn [snd]. destruct (last_value_in p es v' (Hin p v' Hpv)) as (ps & Hes & _).
+    rewrite Forall_forall in Hnn. exact (Hnn (ps, v') Hes). }
+  assert (exists m, max_values RS M = Some m) as [m Hm].
+  { destruct es as [|[ps x] r]; [congruence|]. inversion Hps as [|? ? Hp0 _]; subst. cbn [fst] in Hp0.
+    destruct ps as [|q ps]; [congruence|].
+    destruct (last_value_named q ((q :: ps, x) :: r)) as (y & Hy); [left; reflexivity|].
+    rewrite <- Hget in Hy. apply (dict_get_some_in String.eqb String.eqb_eq) in Hy.
+    unfold max_values. destruct M as [|[k v] M']; [destruct Hy|]. cbn [map snd]. eexists. reflexivity. }
+  exists m. split.
+  - unfold imp_of_entries. destruct es; [congruence|exact Hm].
+  - rewrite (max_values_zero M m Hvals Hm). unfold all_zero. rewrite Forall_forall. split.
+    + intros Hz p Hp. destruct (last_value_named p es Hp) as (y & Hy). rewrite Hy. f_equal.
+      apply Hz. rewrite <- Hget in Hy. apply (dict_get_some_in String.eqb String.eqb_eq) in Hy.
+      apply in_map_iff. exists (p, y). split; [reflexivity|exact Hy].
+    + intros Hz v Hv. apply in_map_iff in Hv. destruct Hv as ([p v'] & <- & Hpv). cbn [snd].
+      pose proof (Hin p v' Hpv) as Hl. destruct (last_value_in p es v' Hl) as (ps & Hes & Hpp).
+      assert (In p (named es)) as Hnamed
+        by (unfold named; apply in_flat_map; exists (ps, v'); split; assumption).
+      rewrite (Hz p Hnamed) in Hl. injection Hl as <-. reflexivity.
 Qed.
 
 Lemma zip_max2_length (a b : list R) :
@@ -164,23 +201,25 @@ Section Deck.
   Proof. intros Hd. cbn [resolve_like]. rewrite Hd. reflexivity. Qed.
 
   (* any card (explicit, LIKE n BUT, chains of LIKE): with [o] the options the
-     chain resolves to, the cell is skipped iff every IMP keyword met in [o] -
-     those of the cards it is LIKE and its own - gives zero. A BUT importance
-     can therefore only keep or raise what the base card says. *)
-  Theorem chain_zero_iff imp_cards cards lats cells skipped r key b opts mat geom o xs :
+     chain resolves to and [es] the IMP entries met in [o] - those of the cards
+     it is LIKE, then its own -, the cell is skipped iff for every particle
+     named the LAST entry naming it gives zero, i.e. iff its importance is zero
+     for every particle: a BUT importance replaces the base card's. *)
+  Theorem chain_zero_iff imp_cards cards lats cells skipped r key b opts mat geom o es :
     parse_cells RS P imp_cards cards lats = Ok (cells, skipped) ->
     nth_error (dict_of Z.eqb cards) r = Some (key, (b, opts)) ->
     resolve_like (S (List.length (dict_of Z.eqb cards))) (dict_of Z.eqb cards) b opts = Ok (mat, geom, o) ->
-    opt_imps RS P (option_tokens o) xs -> xs <> [] -> nonneg xs ->
-    (In key skipped <-> all_zero xs).
+    opt_imps RS P (option_tokens o) es -> es <> [] -> Forall (fun e => 0 <= snd e)%R es ->
+    (In key skipped <-> forall p, In p (named es) -> last_value p es = Some 0%R).
   Proof.
     intros H Hn Hres Hopt Hne Hnn.
     destruct (cell_at_any _ _ _ _ _ _ _ _ _ H Hn) as (imps & m & g & o' & c & Hi & Hr & Hw & Hin).
     rewrite Hres in Hr. injection Hr as <- <- <-.
     pose proof (importance_of_cell RS P _ _ _ _ _ _ _ _ Hopt Hw) as Himp.
-    destruct (max_list RS xs) as [mx|] eqn:Em; [|destruct xs; [congruence|discriminate]].
+    destruct (entries_zero_iff P es Hne (opt_imps_particles RS P _ _ Hopt) Hnn) as (mx & Em & Hz).
+    rewrite Em in Himp.
     destruct (skipped_iff_zero RS P _ _ _ _ _ H) as (_ & _ & Hs).
-    rewrite (Hs key c Hin), is_zero_real, Himp, <- (max_list_zero xs mx Hnn Em).
+    rewrite (Hs key c Hin), is_zero_real, Himp, <- Hz.
     split; [intros E; injection E as ->; reflexivity|intros ->; reflexivity].
   Qed.
 
@@ -199,7 +238,7 @@ Section Deck.
     intros H Hnd Hcr Hlen Hf Ho Hn Hopt.
     destruct (cell_at _ _ _ _ _ _ _ _ _ _ H Hn) as (imps & c & Hi & Hw & Hin).
     rewrite (importance_cards_max RS P _ _ _ Hnd Hcr Hlen) in Hi. injection Hi as <-.
-    pose proof (importance_of_cell RS P _ _ _ _ _ _ _ _ Hopt Hw) as Himp. cbn [max_list] in Himp.
+    pose proof (importance_of_cell RS P _ _ _ _ _ _ _ _ Hopt Hw) as Himp. cbn [imp_of_entries] in Himp.
     assert (r < List.length first)%nat as Hr.
     { assert (r < List.length (map Some (col_max RS first others)))%nat as Hlt
         by (apply nth_error_Some; rewrite Himp; discriminate).
@@ -221,32 +260,27 @@ Section Deck.
     - intros Hall. inversion Hall as [|? ? Ha Hb]; subst. f_equal. apply Hz. split; assumption.
   Qed.
 
-  (* importances on the cell card: the cell is skipped iff every IMP keyword of
-     its card gives zero (whatever the data cards say) *)
-  Theorem cell_card_zero_iff imp_cards cards lats cells skipped r key mat geom opts xs :
+  (* importances on the cell card (explicit card, whatever the data cards say) *)
+  Theorem cell_card_zero_iff imp_cards cards lats cells skipped r key mat geom opts es :
     parse_cells RS P imp_cards cards lats = Ok (cells, skipped) ->
     nth_error (dict_of Z.eqb cards) r = Some (key, (Explicit mat geom, opts)) ->
-    opt_imps RS P (option_tokens opts) xs -> xs <> [] -> nonneg xs ->
-    (In key skipped <-> all_zero xs).
+    opt_imps RS P (option_tokens opts) es -> es <> [] -> Forall (fun e => 0 <= snd e)%R es ->
+    (In key skipped <-> forall p, In p (named es) -> last_value p es = Some 0%R).
   Proof.
     intros H Hn Hopt Hne Hnn.
-    destruct (cell_at _ _ _ _ _ _ _ _ _ _ H Hn) as (imps & c & Hi & Hw & Hin).
-    pose proof (importance_of_cell RS P _ _ _ _ _ _ _ _ Hopt Hw) as Himp.
-    destruct (max_list RS xs) as [m|] eqn:Em; [|destruct xs; [congruence|discriminate]].
-    destruct (skipped_iff_zero RS P _ _ _ _ _ H) as (_ & _ & Hs).
-    rewrite (Hs key c Hin), is_zero_real, Himp, <- (max_list_zero xs m Hnn Em).
-    split; [intros E; injection E as ->; reflexivity|intros ->; reflexivity].
+    apply (chain_zero_iff _ _ _ _ _ _ _ _ _ mat geom opts es H Hn); try assumption.
+    apply resolve_explicit.
   Qed.
 
   (* the same, stated on the text of the card: options written as words
      separated by one blank or one '=' sign, made of IMP keywords each followed
      by a number and of words no branch of the keyword dispatch reacts to *)
-  Theorem plain_card_zero_iff imp_cards cards lats cells skipped r key mat geom ws last xs :
+  Theorem plain_card_zero_iff imp_cards cards lats cells skipped r key mat geom ws last es :
     parse_cells RS P imp_cards cards lats = Ok (cells, skipped) ->
     nth_error (dict_of Z.eqb cards) r = Some (key, (Explicit mat geom, join ws last)) ->
     Forall (fun ws => word (fst ws) /\ sep_ok (snd ws)) ws -> word last ->
-    scan_imps P (map fst ws ++ [last]) = Some xs -> xs <> [] -> nonneg xs ->
-    (In key skipped <-> all_zero xs).
+    scan_imps P (map fst ws ++ [last]) = Some es -> es <> [] -> Forall (fun e => 0 <= snd e)%R es ->
+    (In key skipped <-> forall p, In p (named es) -> last_value p es = Some 0%R).
   Proof.
     intros H Hn Hw Hl Hs Hne Hnn.
     apply (cell_card_zero_iff _ _ _ _ _ _ _ _ _ _ _ H Hn); [|exact Hne|exact Hnn].
@@ -289,35 +323,19 @@ Definition like_deck : list card :=
     (2%Z, (Like 1, "imp:n=0"));
     (3%Z, (Explicit "0" "1", "imp:n=1")) ].
 
-(* LIKE 1 BUT IMP:N=0: the card's own importance is zero, yet the cell is not
-   skipped and is handed to the conversion (the base card's IMP:N=1 wins the max) *)
-Lemma like_but_imp_refuted :
-  exists cells,
-    parse_cells RS wP [] like_deck [] = Ok (cells, []) /\
-    dict_get Z.eqb 2%Z like_deck = Some (Like 1, "imp:n=0") /\
-    opt_imps RS wP (option_tokens "imp:n=0") [0%R] /\
-    In 2%Z (conv_keys RS cells).
-Proof.
-  eexists. split; [rcompute; reflexivity|]. split; [reflexivity|]. split.
-  - change (option_tokens "imp:n=0") with ["imp:n"; "0"].
-    apply oi_imp; [reflexivity|reflexivity|apply oi_nil].
-  - rcompute. right. left. reflexivity.
-Qed.
+(* LIKE 1 BUT IMP:N=0 replaces the base card's IMP:N=1: the cell is skipped *)
+Lemma like_deck_skipped :
+  exists cells, parse_cells RS wP [] like_deck [] = Ok (cells, [2%Z]) /\
+                conv_keys RS cells = [1%Z; 3%Z].
+Proof. eexists. split; [rcompute; reflexivity|rcompute; reflexivity]. Qed.
 
 Definition nonu_deck : list card :=
   [ (1%Z, (Explicit "0" "-1", "imp:n=1 nonu=1"));
     (2%Z, (Explicit "0" "1", "imp:n=1")) ].
 
-(* IMP:N=1 NONU=1: no U keyword on the card, importance 1, yet the cell is put
-   in universe 1: it is neither skipped nor handed to the conversion *)
-Lemma nonu_refuted :
-  exists cells c,
-    parse_cells RS wP [] nonu_deck [] = Ok (cells, []) /\
-    option_tokens "imp:n=1 nonu=1" = ["imp:n"; "1"; "nonu"; "1"] /\
-    In (1%Z, c) cells /\ c_imp c = Some 1%R /\ c_u c = 1%Z /\
-    ~ In 1%Z (conv_keys RS cells).
-Proof.
-  eexists. eexists. split; [rcompute; reflexivity|]. split; [reflexivity|].
-  split; [left; reflexivity|]. split; [reflexivity|]. split; [reflexivity|].
-  rcompute. intros [H|[]]. discriminate.
-Qed.
+(* IMP:N=1 NONU=1: NONU is not the U keyword, the cell stays at level 0 and is
+   handed to the conversion *)
+Lemma nonu_deck_converted :
+  exists cells, parse_cells RS wP [] nonu_deck [] = Ok (cells, []) /\
+                conv_keys RS cells = [1%Z; 2%Z].
+Proof. eexists. split; [rcompute; reflexivity|rcompute; reflexivity]. Qed.
